@@ -25,13 +25,17 @@
     were never seen before.
     Liveness: PROVED - every entry of the view that needs work gets its request in every allowed batch
     (C01_round_acts); the healed and clean state [Steady] is a fixpoint of the healthy round in which
-    the only possible scheduler outcome is the empty batch (C01_steady_round, C11_quiescent_round).
+    the only possible scheduler outcome is the empty batch (C01_steady_round, C11_quiescent_round);
+    healing after NodeHost crashes and restarts ([Calm] states: no membership change in progress), all
+    shards at once, every allowed scheduler outcome: rank decrease per healthy round
+    (C01_progress_partial) and healing within ttl / (nticks * step) + 3 healthy rounds
+    (C01_heal_partial); proofs/FleetHealProofs.v.
     NOT PROVED (stated below as [C01_progress_full], [C01_heal_full] : Prop, checked on every run by
-    the closed-loop correspondence, harness/py/c01.py): that every LoopInv state REACHES such a state -
-    rank decrease per healthy round and healing within a bound. *)
+    the closed-loop correspondence, harness/py/c01.py): the same from every LoopInv state with all
+    hosts up - membership change in progress, stale ADD / DELETE / KILL requests, stray replicas. *)
 From stdpp Require Import gmap.
-From Drummer.Model Require Import DB Sched Fleet FleetRun FleetExample.
-From Drummer.Proofs Require Import DBTimeProofs FleetProofs FleetLiveProofs.
+From Drummer.Model Require Import DB Sched Fleet FleetRun FleetExample FleetRounds.
+From Drummer.Proofs Require Import DBTimeProofs FleetProofs FleetLiveProofs FleetHealProofs.
 Local Open Scope N_scope.
 
 (** * (i) the invariant of all executions *)
@@ -168,40 +172,157 @@ Theorem C01_steady_checked : forall st, LoopInv st -> steady_restb st = true -> 
 Proof. exact steady_restb_sound. Qed.
 Print Assumptions C01_steady_checked.
 
-(** * (ii), (iii): the liveness half - NOT proved; statements kept visible.
-    What is missing: a rank function on LoopInv states (per shard, lexicographic: members whose
-    persisted log is not yet reported / failed restorable members / waiting-to-start members /
-    surplus failed members) together with the proof that [healthy_round] decreases it for every
-    allowed scheduler outcome, which needs (a) the classification of Sched.v related to the REAL
-    state (a member running on a live, reporting host is classified ok after one round: uses the
-    time bounds of C05), (b) that under [fleet > shard size] the outcome OError is not allowed in a
-    healthy round, and the lift from one shard to all shards.  The closed-loop correspondence checks
-    [C01_heal_full] with B = 16 on every generated run (observed maximum over 20200 runs: 6 rounds). *)
-Definition unhealed_rank_exists : Prop :=
-  exists rank : params -> fstate -> nat,
-    forall (P : params) (st st' : fstate) plogs nticks o,
-      LoopInv st -> healed P st = false -> fresh_ok st (ESchedule o) ->
-      healthy_round P plogs nticks o st = Some st' -> (rank P st' < rank P st)%nat.
-Definition C01_progress_full : Prop := unhealed_rank_exists.
+(** * (ii), (iii): the liveness half.
+    PROVED for the fleet after crashes and restarts ([Calm], FleetHealProofs.v): the invariant holds; all
+    NodeHosts are up; for every shard Drummer's view shows the current membership (no membership change
+    is in progress); every current member has its data on its NodeHost - running or NOT: the replicas of a
+    restarted NodeHost stay stopped until Drummer asks for a restore, and they may lag behind -; nothing but
+    current members runs; Requests / Outgoing / the host queues hold nothing but restore requests for
+    current members (of any age), ADD / DELETE requests whose fence is not the current membership version
+    (leftovers of completed repairs) and KILL requests for replicas that are not current members; the kill
+    list is empty.  A healed, clean fleet is Calm and stays Calm
+    when any NodeHost crashes and restarts, any number of times ([C01_calm_bounce]).
+    From a Calm state, for ALL shards at once, for EVERY outcome the scheduler model allows in each round:
+      - a healthy round never gets stuck, the scheduler cannot answer with errNotEnoughNodeHost or panic,
+        every batch consists of restore requests for stopped members, the state is Calm again
+        ([C01_calm_round], [C01_calm_round_total]);
+      - a rank strictly decreases in every healthy round while the fleet is not healed ([C01_progress_partial]);
+      - after  ttl / (nticks * step) + 3  healthy rounds the fleet is healed ([C01_heal_partial]).
+    No fleet-size premise is needed here: a restarted NodeHost is restored in place, nothing is added.
+    NOT PROVED ([C01_progress_full], [C01_heal_full] below): the same from EVERY state of the invariant in
+    which all hosts are up - with a membership change in progress (ADD applied and the new member not yet
+    created, surplus member not yet deleted), Drummer's view behind the real membership, stray replicas and
+    a non-empty kill list, arbitrary stale ADD / DELETE / KILL requests in the mailboxes.  That is where the
+    fleet-size premise is needed (errNotEnoughNodeHost drops the whole round, KILLs included).  The
+    closed-loop correspondence checks healing within 16 healthy rounds on every generated run (observed
+    maximum 6), and [C01_heal_full_instance] below runs the model on such a state. *)
 
+(* what "healthy round" assumes (Fleet.healthy_round P plogs nticks o): no fault event; every NodeHost, in
+   address order, builds a report (persisted-log list included when [plogs a]) and the report is delivered
+   and answered with the requests picked up for it; every NodeHost executes its queue (config changes do
+   not time out); every running current member of a shard whose majority runs learns the current
+   membership; [nticks] ticks pass; the leader schedules with outcome [o], which must be one the scheduler
+   model allows ([Sched.allowed]) in that context - otherwise there is no such round. *)
+
+Theorem C01_calm_round : forall (P : params) (st st' : fstate) (plogs : N -> bool) (nticks : nat) (o : outcome),
+  Calm st -> (forall a, plogs a = true) -> N.of_nat nticks * p_step P <= p_ttl P ->
+  healthy_round P plogs nticks o st = Some st' ->
+  exists b, o = OBatch b /\ Calm st' /\ f_hist st' = f_hist st /\
+    (forall a fh, f_hosts st' !! a = Some fh -> fh_queue fh = []) /\
+    (forall a s rid, member_running (f_hosts st) s rid a = true -> member_running (f_hosts st') s rid a = true).
+Proof. exact calm_round_short. Qed.
+Print Assumptions C01_calm_round.
+
+(* the round exists: the scheduler has an allowed outcome and the round goes through with it *)
+Theorem C01_calm_round_total : forall (P : params) (st : fstate) (plogs : N -> bool) (nticks : nat),
+  Calm st -> (forall a, plogs a = true) -> N.of_nat nticks * p_step P <= p_ttl P ->
+  exists o st', healthy_round P plogs nticks o st = Some st'.
+Proof. exact calm_round_total. Qed.
+Print Assumptions C01_calm_round_total.
+
+(* (ii) the rank [heal_rank P st] = sum over all current members of all shards of
+     0                          the member runs and Drummer's record of it is at most ttl old,
+     1                          it runs, the record is older (it has just been restarted),
+     2                          it is stopped and its restore request waits in Requests,
+     3 + (ttl + 1 - age)        it is stopped, age = now - last report: the failure detector has not fired yet,
+   strictly decreases in every healthy round from a Calm state that is not healed, whatever the scheduler does *)
+Theorem C01_progress_partial : forall (P : params) (st st' : fstate) (plogs : N -> bool) (nticks : nat) (o : outcome),
+  Calm st -> (forall a, plogs a = true) -> (0 < nticks)%nat -> 0 < p_step P -> N.of_nat nticks * p_step P <= p_ttl P ->
+  healed P st = false -> healthy_round P plogs nticks o st = Some st' ->
+  (heal_rank P st' < heal_rank P st)%nat.
+Proof. exact calm_progress. Qed.
+Print Assumptions C01_progress_partial.
+
+(* (iii) B = detect_rounds P nticks + 2 = ttl / (nticks * step) + 3 healthy rounds heal every shard, and it
+   stays healed in all later healthy rounds (any number of rounds >= B):
+   the failure detector fires for every stopped member and its restore request is scheduled (detect_rounds),
+   the NodeHosts restart them (1), they report (1) *)
+Theorem C01_heal_partial : forall (P : params) (plogs : N -> bool) (nticks : nat) (os : list outcome) (st st' : fstate),
+  Calm st -> (forall a, plogs a = true) -> (0 < nticks)%nat -> 0 < p_step P -> N.of_nat nticks * p_step P <= p_ttl P ->
+  (detect_rounds P nticks + 2 <= length os)%nat ->
+  healthy_rounds P plogs nticks os st = Some st' ->
+  Calm st' /\ healed P st' = true.
+Proof. intros P plogs nticks os st st' HC Hpl Hnt Hst Httl. by apply calm_heal_ge. Qed.
+Print Assumptions C01_heal_partial.
+
+(* a NodeHost crash followed by its restart keeps the fleet Calm; a Steady fleet whose members have all reported is Calm *)
+Theorem C01_calm_bounce : forall (P : params) (st : fstate) (a : N) (st1 st2 : fstate),
+  Calm st -> fstep P st (ECrash a) = FOk st1 -> fstep P st1 (ERestart a) = FOk st2 -> Calm st2.
+Proof. exact calm_bounce. Qed.
+Print Assumptions C01_calm_bounce.
+
+(* the decidable conjuncts of Calm are what the examples below evaluate *)
+Theorem C01_calm_checked : forall st, LoopInv st -> calm_restb st = true -> Calm st.
+Proof. exact calm_restb_sound. Qed.
+Print Assumptions C01_calm_checked.
+
+(** ** errNotEnoughNodeHost: cause and exclusion, from ANY state of the invariant *)
+(* the cause (decision level, any context): a view entry in the ADD branch of the repair chain has a failed member
+   for which NO live NodeHost (reported less than ttl ago) is free of the shard; Drummer then drops the WHOLE
+   round - restores, join-CREATEs and KILLs of all other shards included *)
+Theorem C01_error_cause : forall (P : params) (C : sctx),
+  allowed P C OError = true ->
+  exists c n, c ∈ entries C /\ repair_action P C c = AAdd /\ n ∈ sr_failed P C c /\
+              forall h, h ∈ host_list C -> host_live P C h = true -> r_shard n ∈ h_shards h.
+Proof. exact error_cause. Qed.
+Print Assumptions C01_error_cause.
+
+(* the exclusion: in a healthy round (shorter than ttl) from ANY state of the invariant with all NodeHosts up, if
+   every launched shard has a spare NodeHost - up, running no replica of the shard, not the address of a member
+   of the shard in any membership from the one Drummer's view shows onwards - the scheduler cannot answer
+   errNotEnoughNodeHost, whatever happened before.  (A fleet with more NodeHosts than the shard has ever had
+   member addresses since that version, and no stray replica on the extra one, has such a host.) *)
+Theorem C01_no_error_round : forall (P : params) (st st' : fstate) (plogs : N -> bool) (nticks : nat) (o : outcome),
+  LoopInv st -> (forall a fh, f_hosts st !! a = Some fh -> fh_up fh = true) ->
+  (forall s, is_Some (f_hist st !! s) -> exists a, spare st a s) ->
+  N.of_nat nticks * p_step P < p_ttl P ->
+  healthy_round P plogs nticks o st = Some st' -> o <> OError.
+Proof. exact round_no_error. Qed.
+Print Assumptions C01_no_error_round.
+
+(** ** the statements that remain open *)
+(* every current member has its data on its NodeHost, or has never been started (Drummer's record of it, if any,
+   carries no report).  Without it the statement is false: LoopInv alone admits states in which a majority of
+   a shard has lost its data. *)
+Definition members_have_data (st : fstate) : Prop :=
+  forall s h rid a, f_hist st !! s = Some h -> cur_members h !! rid = Some a ->
+    (exists fh lr, f_hosts st !! a = Some fh /\ fh_reps fh !! (s, rid) = Some lr) \/
+    (forall c n, d_view (f_db st) !! s = Some c -> s_reps c !! rid = Some n -> r_tick n = 0).
 Definition fleet_larger (st : fstate) : Prop :=
   forall s sd, d_shards (f_db st) !! s = Some sd -> (length (sd_members sd) < size (f_hosts st))%nat.
-(* B consecutive healthy rounds (any allowed scheduler outcomes [os], persisted logs reported in every
-   round, [nticks] ticks per round with nticks * step <= ttl) from a LoopInv state in which every host is up *)
-Fixpoint healthy_rounds (P : params) (nticks : nat) (os : list outcome) (st : fstate) : option fstate :=
+Definition all_up (st : fstate) : Prop := forall a fh, f_hosts st !! a = Some fh -> fh_up fh = true.
+(* further premises the open statements need (each one is necessary in the model): time has started (a member
+   recorded at logical time 0 counts as failed for ever); 0 < step (otherwise the failure detector never fires);
+   nticks * step < ttl STRICTLY (with equality no NodeHost is "live" when the leader schedules and every ADD ends in
+   errNotEnoughNodeHost); fleet_larger is the property's premise - what the proved C01_no_error_round uses is the
+   more precise [spare] *)
+(* the random source: the new replica ids of every round are fresh *)
+Fixpoint fresh_rounds (P : params) (nticks : nat) (os : list outcome) (st : fstate) : Prop :=
   match os with
-  | [] => Some st
-  | o :: os' => match healthy_round P (fun _ => true) nticks o st with
-                | Some st' => healthy_rounds P nticks os' st'
-                | None => None
-                end
+  | [] => True
+  | o :: os' =>
+    match pre_schedule P (fun _ => true) nticks st with Some st4 => fresh_ok st4 (ESchedule o) | None => True end /\
+    match healthy_round P (fun _ => true) nticks o st with Some st' => fresh_rounds P nticks os' st' | None => True end
   end.
+
+Definition C01_progress_full : Prop :=
+  exists rank : params -> fstate -> nat,
+    forall (P : params) (st st' : fstate) nticks o,
+      LoopInv st -> members_have_data st -> fleet_larger st -> all_up st -> 0 < d_tick (f_db st) ->
+      (0 < nticks)%nat -> 0 < p_step P -> N.of_nat nticks * p_step P < p_ttl P ->
+      healed P st = false -> fresh_rounds P nticks [o] st ->
+      healthy_round P (fun _ => true) nticks o st = Some st' -> (rank P st' < rank P st)%nat.
+
+(* B consecutive healthy rounds (any allowed scheduler outcomes [os], persisted logs reported in every
+   round, [nticks] ticks per round with nticks * step < ttl) from ANY state of the invariant in which every
+   host is up *)
 Definition C01_heal_full : Prop :=
   exists B : params -> nat -> nat,
     forall (P : params) (nticks : nat) (os : list outcome) (st st' : fstate),
-      LoopInv st -> fleet_larger st -> (forall a fh, f_hosts st !! a = Some fh -> fh_up fh = true) ->
-      (0 < nticks)%nat -> N.of_nat nticks * p_step P <= p_ttl P ->
-      length os = B P nticks -> healthy_rounds P nticks os st = Some st' -> healed P st' = true.
+      LoopInv st -> members_have_data st -> fleet_larger st -> all_up st -> 0 < d_tick (f_db st) ->
+      (0 < nticks)%nat -> 0 < p_step P -> N.of_nat nticks * p_step P < p_ttl P ->
+      fresh_rounds P nticks os st ->
+      length os = B P nticks -> healthy_rounds P (fun _ => true) nticks os st = Some st' -> healed P st' = true.
 
 (** * Non-vacuity (closed by computation on a logged run of the implementation, FleetExample.v) *)
 
@@ -246,3 +367,98 @@ Qed.
 Example C01_fresh_ok_satisfiable : forall st b,
   NoDup (add_ids b) -> (forall x, x ∈ add_ids b -> x ∉ f_seen st) -> fresh_ok st (ESchedule (OBatch b)).
 Proof. intros st b H1 H2. split; assumption. Qed.
+
+(** ** non-vacuity of the liveness theorems *)
+(* the launched state of the logged run, then NodeHosts 1 and 2 crash and restart: 2 of the 3 members of
+   shard 1 are stopped *)
+Definition ex_bounced : option fstate :=
+  match ex_launched with Some st => steps ex_params st [ECrash 1; ERestart 1; ECrash 2; ERestart 2] | None => None end.
+
+(* the launched state is Calm, the bounced state is Calm and NOT healed *)
+Example C01_calm_computed :
+  match ex_launched, ex_bounced with
+  | Some st0, Some st => init_okb st0 && calm_restb st0 && calm_restb st && negb (healed ex_params st)
+  | _, _ => false
+  end = true.
+Proof. vm_compute. reflexivity. Qed.
+
+Example C01_calm_inhabited : exists st, ex_bounced = Some st /\ Calm st /\ healed ex_params st = false.
+Proof.
+  pose proof C01_calm_computed as H. unfold ex_bounced in *. destruct ex_launched as [st0|]; [|done].
+  destruct (steps ex_params st0 [ECrash 1; ERestart 1; ECrash 2; ERestart 2]) as [st|] eqn:E; [|done].
+  apply andb_true_iff in H as [H H4]. apply andb_true_iff in H as [H H3]. apply andb_true_iff in H as [H1 H2].
+  exists st. split; [done|]. split; [|by apply negb_true_iff].
+  apply calm_restb_sound; [|done].
+  destruct (run_inv ex_params [ECrash 1; ERestart 1; ECrash 2; ERestart 2] st0 (init_inv _ (init_okb_sound _ H1))) as (st' & E' & HI).
+  { by apply fresh_run_faults. }
+  congruence.
+Qed.
+
+(* with ttl = 60, step = 5 and 2 ticks per round: detect_rounds = 7, B = 9; nine healthy rounds with the
+   scheduler's canonical outcomes exist from the bounced state (the hypotheses of C01_heal_partial are
+   satisfiable), five of them empty, then the restore requests; the fleet is healed and Steady again *)
+Example C01_heal_computed :
+  match ex_bounced with
+  | Some st =>
+    match canon_run ex_params (fun _ => true) 2 (fun i _ => 1000 + N.of_nat i) 9 st with
+    | Some (os, st') =>
+      bool_decide (healthy_rounds ex_params (fun _ => true) 2 os st = Some st')
+      && bool_decide (length os = (detect_rounds ex_params 2 + 2)%nat)
+      && existsb (fun o => match o with OBatch (_ :: _) => true | _ => false end) os
+      && healed ex_params st' && steady_restb st'
+    | None => false
+    end
+  | None => false
+  end = true.
+Proof. vm_compute. reflexivity. Qed.
+
+(* an instance of the OPEN statement, by computation: the final state of the logged run (NodeHost 1 down, its
+   replacement ADDed on NodeHost 4 but not yet created: 4 members, a membership change in progress - not
+   Calm), NodeHost 1 restarts; healthy rounds with the scheduler's canonical outcomes: restore of replica 1,
+   join-CREATE of the new replica 105; healed and Steady after 12 rounds (4 suffice) *)
+Example C01_heal_full_instance :
+  match ex_final with
+  | Some st0 =>
+    match steps ex_params st0 [ERestart 1] with
+    | Some st =>
+      negb (calm_restb st) &&
+      match canon_run ex_params (fun _ => true) 2 (fun i _ => 1000 + N.of_nat i) 12 st with
+      | Some (os, st') =>
+        bool_decide (healthy_rounds ex_params (fun _ => true) 2 os st = Some st') && healed ex_params st' && steady_restb st'
+      | None => false
+      end
+    | None => false
+    end
+  | None => false
+  end = true.
+Proof. vm_compute. reflexivity. Qed.
+
+(* the premise of C01_no_error_round is satisfiable: in the bounced state NodeHost 4 is spare for shard 1 (the
+   only launched shard) and NodeHost 1 is not; in the final state of the logged run (after NodeHost 1 has
+   restarted) there is NO spare host for shard 1: all four NodeHosts hold a member *)
+Example C01_spare_computed :
+  match ex_bounced with
+  | Some st => spareb st 4 1 && negb (spareb st 1 1) && bool_decide (dom (f_hist st) = ({[1]} : gset N))
+  | None => false
+  end = true.
+Proof. vm_compute. reflexivity. Qed.
+
+Example C01_no_spare_computed :
+  match ex_final with
+  | Some st0 =>
+    match steps ex_params st0 [ERestart 1] with
+    | Some st1 => forallb (fun a => negb (spareb st1 a 1)) [1; 2; 3; 4]
+    | None => false
+    end
+  | None => false
+  end = true.
+Proof. vm_compute. reflexivity. Qed.
+
+Example C01_spare_inhabited :
+  exists st, ex_bounced = Some st /\ (forall s, is_Some (f_hist st !! s) -> exists a, spare st a s).
+Proof.
+  pose proof C01_spare_computed as H. destruct ex_bounced as [st|]; [|done]. exists st. split; [done|].
+  apply andb_true_iff in H as [H Hdom]. apply andb_true_iff in H as [H _]. apply bool_decide_eq_true in Hdom.
+  intros s Hs. apply elem_of_dom in Hs. rewrite Hdom in Hs. apply elem_of_singleton in Hs as ->.
+  exists 4. by apply spareb_sound.
+Qed.
